@@ -4,7 +4,9 @@ World: a real ClientService(endpoint, factory, retryPolicy, clock=task.Clock, pr
 over a fake endpoint whose connect() Deferreds the scheduler resolves, a fake transport, a retry
 policy with a distinct, exactly representable delay per attempt count, and prepareConnection in one
 of four modes (none / sync ok / sync raising on odd connections / Deferred fired by the scheduler).
-Actions: start, stop, whenConnected(None|1|2), attempt ok/fail, drop connection i, prepare ok/fail,
+(plus Deferreds that have already fired when prepareConnection returns them), and optionally an
+endpoint that ignores cancellation (a cancelled attempt is later resolved with a connection or a
+failure anyway).  Actions: start, stop, whenConnected(None|1|2; 3 in the random walks), attempt ok/fail, drop connection i, prepare ok/fail,
 advance the clock to the next timer / half way.  Every action is wrapped: any escaping exception
 (automat NoTransition, RuntimeError ...) and any failure left in the attempt Deferred are events.
 
@@ -35,16 +37,19 @@ LEVEL = "exploration"
 ENGINE = "E1-explore"
 TECHNIQUE = "runtime monitoring: connection/attempt census at connect(), clock-exact retry oracle, waiter and stop obligations, escaping exceptions"
 RULE = ("exhaustive histories (DFS with state hashing over machine state, counters, outstanding Deferreds, clock "
-        "queue and monitor state) up to depth 7 (quick; 6 for the synchronous-connect configurations) / 11 (thorough) for each configuration "
+        "queue and monitor state) up to depth 7 (quick; 6 for the synchronous-connect configurations, 6 for the late-resolution and 5 for the fired-prepare ones) / 11 (thorough) for each configuration "
         "prepare in {none, sync-ok, sync-raise-odd, deferred} x connect in {async, first connect fails synchronously, "
-        "first connect succeeds synchronously} plus a re-entrant-callback configuration; random histories of 300 "
+        "first connect succeeds synchronously}, for prepare Deferreds that are already fired (ok / failing on odd "
+        "connections) and for endpoints that resolve a cancelled attempt anyway (late connection / late failure), plus a "
+        "re-entrant-callback configuration; random histories of 300 "
         "actions.  Distinct = (configuration, history); non-trivial = history containing at least one connect().")
 ASSUMPTIONS = ["trusted base: fake endpoint/transport/factory, the model of this module (about 150 lines)",
-               "the endpoint honours cancellation (a cancelled attempt never produces a connection)",
+               "outside the 'late' configurations the endpoint honours cancellation (a cancelled attempt never produces a connection)",
                "waiter callbacks do not call back into the service except in the dedicated 're-entrant' configuration"]
 SHARDS = {"quick": 4, "thorough": 16}
 FLOORS = {"connects_checked": 2000, "retry_times_checked": 500, "waiter_fires_checked": 500, "stop_fires_checked": 500,
-          "established": 500, "explore_states": 3000, "walk_actions": 2000}
+          "established": 500, "explore_states": 3000, "walk_actions": 2000,
+          "late_resolutions": 200, "fired_prepare_deferreds": 300, "limit_waiters_pending_at_restart": 100}
 READY = True
 
 
@@ -87,9 +92,10 @@ class Conn:
         self.app = None
         self.transport = None
         self.current = False
+        self.orphan = False       # made by an endpoint that ignored the cancellation of its attempt
 
     def tag(self):
-        return (self.prepare, self.closing, self.current)
+        return (self.prepare, self.closing, self.current, self.orphan)
 
 
 class Attempt:
@@ -99,6 +105,7 @@ class Attempt:
         self.factory = factory
         self.state = "pending"    # pending | ok | failed | cancelled
         self.trapped = False
+        self.late = False         # a cancelled attempt that the endpoint resolved anyway
 
 
 _FAKES = []
@@ -222,7 +229,8 @@ class World:
             def cancel(d, a=a):
                 a.state = "cancelled"
 
-            a.d = self.defer.Deferred(cancel)
+            # an endpoint that ignores cancellation has no canceller: the Deferred then swallows its late result
+            a.d = self.defer.Deferred() if self.cfg.get("late") else self.defer.Deferred(cancel)
         return a.d
 
     def _make_conn(self, a):
@@ -254,6 +262,15 @@ class World:
                 raise c.exc
             c.prepare = "ok"
             return None
+        if mode in ("fired-ok", "fired-fail-odd"):   # a Deferred that has already fired when it is returned
+            self.ctx.count("fired_prepare_deferreds")
+            if mode == "fired-fail-odd" and c.id % 2 == 1:
+                c.prepare = "rejected"
+                c.exc = ValueError("rejected connection %d" % c.id)
+                self.events.append(("fail", c.exc, self.start_pending, c))
+                return self.defer.fail(c.exc)
+            c.prepare = "ok"
+            return self.defer.succeed("ignored value")
         c.prepare = "pending"
 
         def cancel(d, c=c):
@@ -282,6 +299,10 @@ class World:
 
     def _leak_key(self, opened):
         """Narrow key from the fate of the open connections the service no longer tracks."""
+        for c in opened:
+            if c.orphan and not c.closing:
+                return ("clientservice-cancelled-attempt-connects-anyway",
+                        "an attempt cancelled by stopService produced a connection anyway (endpoint ignored the cancellation); the service built its protocol and left it open")
         for c in opened:
             if c.prepare == "rejected" and not c.closing:
                 return "clientservice-rejected-connection-leaks", "a connection rejected by prepareConnection is left open"
@@ -314,7 +335,11 @@ class World:
         acts = ["start", "stop"]
         if sum(1 for w in self.waiters if w["fired"] is None) < 3:
             acts += ["wc", "wc1", "wc2"]
+            if self.cfg.get("wc3"):
+                acts.append("wc3")
         opened, pend = self.live()
+        if self.cfg.get("late") and any(a.state == "cancelled" and not a.late for a in self.attempts):
+            acts += ["late-ok", "late-fail"]
         if pend:
             acts += ["att-ok", "att-fail"]
         for i, c in enumerate(opened[:2]):
@@ -343,6 +368,9 @@ class World:
         try:
             if act == "start":
                 if not self.running:
+                    n = sum(1 for w in self.waiters if w["fired"] is None and w["limit"] is not None)
+                    if n and self.ever_started:
+                        self.ctx.count("limit_waiters_pending_at_restart", n)
                     self.running = True
                     self.ever_started = True
                     self.start_pending = True
@@ -362,8 +390,25 @@ class World:
                 ev["stop"] = rec
                 d = self.svc.stopService()
                 d.addBoth(self._fired, "stop", rec)
-            elif act in ("wc", "wc1", "wc2"):
-                limit = {"wc": None, "wc1": 1, "wc2": 2}[act]
+            elif act in ("late-ok", "late-fail"):
+                # the endpoint ignored the cancellation and resolves the attempt anyway (the Deferred drops the result)
+                a = [x for x in self.attempts if x.state == "cancelled" and not x.late][0]
+                a.late = True
+                self.ctx.count("late_resolutions")
+                if act == "late-fail":
+                    a.d.errback(Failure(ConnectionRefusedError("late refusal %d" % a.id)))
+                else:
+                    proxy = a.factory.buildProtocol(None)
+                    if proxy is not None:   # (a service that refuses to build a protocol for a cancelled attempt is fine)
+                        c = Conn(len(self.conns) + 1)
+                        self.conns.append(c)
+                        c.orphan = True
+                        c.proxy, c.app, c.transport = proxy, self.last_app, FakeTransport(c)
+                        ev["context"] = ("late-ok", c)
+                        proxy.makeConnection(c.transport)
+                        a.d.callback(proxy)
+            elif act in ("wc", "wc1", "wc2", "wc3"):
+                limit = {"wc": None, "wc1": 1, "wc2": 2, "wc3": 3}[act]
                 rec = {"id": len(self.waiters) + 1, "limit": limit, "fails": 0, "fired": None, "nfires": 0, "new": True}
                 self.waiters.append(rec)
                 d = self.svc.whenConnected(failAfterFailures=limit)
@@ -441,6 +486,10 @@ class World:
         if ctxt and ctxt[0] == "drop" and name == "NoTransition":
             c = ctxt[1]
             detail["dropped_connection"] = {"id": c.id, "prepare": c.prepare, "closing_requested_by_service": c.closing}
+            if c.orphan and not c.closing:
+                return self.violation("clientservice-cancelled-attempt-connects-anyway",
+                                      "the loss of a connection made by a cancelled attempt (endpoint ignored the cancellation; the service built its protocol "
+                                      "and left it open) is rejected as NoTransition", detail)
             if c.prepare == "rejected" and not c.closing:
                 return self.violation("clientservice-rejected-connection-leaks",
                                       "the loss of a connection that prepareConnection rejected (and the service left open) is rejected as NoTransition", detail)
@@ -457,6 +506,9 @@ class World:
     # ---- the oracle after each action ------------------------------------------------------------
     def _post(self, act, ev, now):
         ctx = self.ctx
+        for a in self.attempts:
+            if a.state == "pending" and a.d is not None and a.d.called:   # cancelled by the service (no canceller to tell us)
+                a.state = "cancelled"
         # exceptions swallowed into the attempt Deferred chain
         for a in self.attempts:
             if not a.trapped and a.d is not None:
@@ -606,7 +658,8 @@ class World:
                             if (k == "c" and self.conns[i - 1].open) or (k == "a" and self.attempts[i - 1].state == "pending"))
                       for r in self.stops if not r["fired"]),
                 min(self.nconnect, 1) if not isinstance(self.cfg["connect"], list) else self.nconnect % len(self.cfg["connect"]),
-                len(self.conns) % 2 if self.cfg["prepare"] == "sync-raise-odd" else 0, self.dead)
+                len(self.conns) % 2 if self.cfg["prepare"] in ("sync-raise-odd", "fired-fail-odd") else 0,
+                sum(1 for a in self.attempts if a.state == "cancelled" and not a.late) if self.cfg.get("late") else 0, self.dead)
 
 
 class _Quiet:
@@ -652,6 +705,8 @@ def shrink(cfg, history, key):
 
 CONFIGS = [{"prepare": p, "connect": c} for p in ("none", "sync-ok", "sync-raise-odd", "deferred") for c in ("async", "syncfail", "syncok")]
 REENTRANT = {"prepare": "none", "connect": "async", "reentrant": True}
+EXTRA = [{"prepare": "none", "connect": "async", "late": True}, {"prepare": "deferred", "connect": "async", "late": True},
+         {"prepare": "fired-ok", "connect": "async"}, {"prepare": "fired-fail-odd", "connect": "async"}, {"prepare": "fired-fail-odd", "connect": "syncok"}]
 
 
 def run(ctx):
@@ -666,14 +721,17 @@ def run(ctx):
                 ctx.distinct((w.cfg, tuple(history)))
 
         for cfg in CONFIGS:
-            d = depth - 1 if ctx.quick and cfg["connect"] != "async" else depth
+            d = depth - 1 if ctx.quick and (cfg["connect"] != "async" or cfg["prepare"] == "sync-ok") else depth
+            explore.dfs(ctx, lambda cfg=cfg: World(ctx, cfg), d, shard_depth=3, on_node=on_node)
+        for cfg in EXTRA:
+            d = depth - 2 if ctx.quick and not cfg.get("late") else depth - 1
             explore.dfs(ctx, lambda cfg=cfg: World(ctx, cfg), d, shard_depth=3, on_node=on_node)
         explore.dfs(ctx, lambda: World(ctx, REENTRANT), 5, shard_depth=3, on_node=on_node)
         # random long histories
-        for i in ctx.cases(240, 20000):
+        for i in ctx.cases(200, 20000):
             rng = ctx.case_rng("walk", i)
-            cfg = {"prepare": rng.choice(["none", "none", "sync-ok", "sync-ok", "sync-raise-odd", "deferred"]),
-                   "connect": [rng.choice(["async", "async", "async", "syncfail", "syncok"]) for _ in range(rng.randrange(1, 6))]}
+            cfg = {"prepare": rng.choice(["none", "none", "sync-ok", "sync-ok", "fired-ok", "sync-raise-odd", "deferred"]), "wc3": True,
+                   "late": rng.random() < 0.3, "connect": [rng.choice(["async", "async", "async", "syncfail", "syncok"]) for _ in range(rng.randrange(1, 6))]}
             w = World(ctx, cfg)
             for _ in range(300):
                 acts = w.actions()
